@@ -84,8 +84,11 @@ type DecodeFacts struct {
 	ReaderLoops []*Loop       // loops of the reader function
 	Loops       []*Loop       // loops of LoopFn
 	Loop        *Loop
-	RecordConv  ssa.Value      // the *unix.InotifyEvent pointer
-	RecordIdx   *ssa.IndexAddr // &buf[offset]
+	RecordConv  ssa.Value       // the *unix.InotifyEvent pointer
+	RecordIdx   *ssa.IndexAddr  // &buf[offset]
+	ConvInner   ssa.Value       // the conversion itself (== RecordConv unless it lives in a cast helper)
+	IdxChain    []*ssa.Call     // call sites from the reader to the function holding RecordIdx (Chain, plus a cast helper)
+	BodyAnchor  ssa.Instruction // an instruction of LoopFn executed once per record (the index computation or the cast helper's call)
 	OffsetPhi   *ssa.Phi
 	Handler     *ssa.Function
 	HandlerCall *ssa.Call
@@ -176,11 +179,45 @@ func decodeFacts(a *An) *DecodeFacts {
 			}
 		}
 	}
+	df.IdxChain = df.Chain
+	df.ConvInner = df.RecordConv
+	if df.RecordIdx != nil {
+		df.BodyAnchor = df.RecordIdx
+	}
+	var recordIndex ssa.Value
+	if df.RecordIdx != nil {
+		recordIndex = df.RecordIdx.Index
+	}
+	// the cast may live in a tiny helper `recordAt(buf, offset)` called from the loop: then the record pointer is that
+	// call's result, and the offset is the argument bound to the helper's index parameter
+	if df.RecordConv != nil && df.Loop == nil && len(df.Chain) > 0 {
+		site := df.Chain[len(df.Chain)-1]
+		helper := df.LoopFn
+		returnsIt := false
+		for _, b := range helper.Blocks {
+			if r, ok := b.Instrs[len(b.Instrs)-1].(*ssa.Return); ok && len(r.Results) == 1 && stripConv(r.Results[0]) == stripConv(df.RecordConv) {
+				returnsIt = true
+			}
+		}
+		if prm, ok := stripConv(df.RecordIdx.Index).(*ssa.Parameter); ok && returnsIt {
+			for i, hp := range helper.Params {
+				if hp == prm && i < len(site.Call.Args) {
+					recordIndex = site.Call.Args[i]
+				}
+			}
+			df.LoopFn = site.Parent()
+			df.Chain = df.Chain[:len(df.Chain)-1]
+			df.Loops = naturalLoops(df.LoopFn)
+			df.Loop = innermostLoop(df.Loops, site.Block())
+			df.RecordConv = site
+			df.BodyAnchor = site
+		}
+	}
 	if df.RecordConv == nil || df.Loop == nil {
 		a.R.fail("anchor unresolved: decode loop (a loop in %s converting &buf[offset] to *unix.InotifyEvent)", shortFn(rd))
 		return nil
 	}
-	if ph, ok := stripConv(df.RecordIdx.Index).(*ssa.Phi); ok && ph.Block() == df.Loop.Header {
+	if ph, ok := stripConv(recordIndex).(*ssa.Phi); ok && ph.Block() == df.Loop.Header {
 		df.OffsetPhi = ph
 	}
 	for b := range df.Loop.Blocks {
@@ -289,6 +326,19 @@ func visitOf(w *Walker, in ssa.Instruction) *Visit {
 		}
 	}
 	return best
+}
+
+// idxCtx: the context of the function holding the buffer index computation (the loop function, or the cast helper).
+func (df *DecodeFacts) idxCtx(root *Ctx) *Ctx {
+	c := root
+	for _, site := range df.IdxChain {
+		k := c.calleeCtx(site, &site.Call)
+		if k == nil {
+			return c
+		}
+		c = k
+	}
+	return c
 }
 
 // loopCtx: the context of the function holding the decode loop, as inlined from the reader root.
